@@ -26,7 +26,8 @@ Import ListNotations.
 Open Scope Z_scope.
 
 Inductive scheme := Http | Https.
-Inductive hostk := HIp | HAlt.                       (* numerical address | alternative_hostname *)
+Inductive hostk := HIp | HAlt | HOther.              (* numerical address | alternative_hostname | a netloc that only
+                                                        a peer brought up (proxy, NAT, foreign stack) *)
 Inductive role := RP | RC.                           (* provider | consumer *)
 Inductive ctxid := PClient | PServer | CClient | CServer.   (* the four SSLContext objects of the two containers *)
 Inductive cmode := CNone | COptional | CEnforced | CEnforcedNoCtx.
@@ -87,14 +88,26 @@ Definition p_listen_tls (pc : pconf) : bool := snd (p_start pc).
 
 Record psub := mkpsub { notify_to : addr; end_to : option addr }.
 
+(* the address-like fields of a request that the PEER chooses: wsa:To (None = absent / not a transport address),
+   whether its path is the path of the called service, wsa:ReplyTo, wsa:From, the netloc in the Host header, an URL
+   inside reference parameters.  The schemes are compared case-insensitively (HtTp = Http).  Nothing ties them to
+   the transport that was really used; the provider reads them (header_info_block, http_header) - the model, like
+   the code, lets none of them into an address that the provider advertises. *)
+Record peerf := mkpeerf { pf_to : option addr; pf_to_is_service_path : bool; pf_reply_to : option addr;
+                          pf_from : option addr; pf_host : hostk; pf_refparam : option addr }.
+
+(* what the library's own consumer sends: wsa:To = the address it contacts, nothing else *)
+Definition lib_pf (a : addr) : peerf := mkpeerf (Some a) true None None (a_host a) None.
+
 Inductive pin :=
 | PStart                                   (* start_all: own / shared server; get_xaddrs, base_urls *)
 | PPublish                                 (* publish(): x_addrs handed to WS-Discovery *)
-| PProbe                                   (* directed Probe -> ProbeMatches/XAddrs *)
-| PGetMetadata                             (* TransferGet on the device: hosted endpoint references *)
-| PHostedMetadata                          (* GetMetadata on a hosted service: endpoint reference + wsdl location *)
-| PSubscribe (n : addr) (e : option addr)  (* Subscribe: NotifyTo / EndTo are chosen by the peer - any scheme *)
-| PRequest                                 (* any other request: Renew, GetStatus, Unsubscribe, Get.., Set.. *)
+| PProbe (f : peerf)                       (* directed Probe -> ProbeMatches/XAddrs *)
+| PGetMetadata (f : peerf)                 (* TransferGet on the device: hosted endpoint references *)
+| PHostedMetadata (f : peerf)              (* GetMetadata on a hosted service: endpoint reference + wsdl location *)
+| PSubscribe (f : peerf) (n : addr) (e : option addr)
+                                           (* Subscribe: NotifyTo / EndTo are chosen by the peer - any scheme *)
+| PRequest (f : peerf)                     (* any other request: Renew, GetStatus, Unsubscribe, Get.., Set.. *)
 | PNotify (i : nat) (peer_tls : bool)      (* a report for subscription i; the sink's port is TLS or not *)
 | PEnd (i : nat) (peer_tls : bool).        (* SubscriptionEnd for subscription i *)
 
@@ -102,11 +115,13 @@ Definition pstep (pc : pconf) (st : list psub) (i : pin) : list psub * list even
   match i with
   | PStart => (st, fst (p_start pc) ++ [Adv KXaddr RP (p_xaddr pc); Adv KBaseUrl RP (p_base pc)])
   | PPublish => (st, [Adv KWsdXaddr RP (p_xaddr pc)])
-  | PProbe => (st, [Adv KProbeXaddr RP (p_xaddr pc)])
-  | PGetMetadata => (st, [Adv KHosted RP (p_base pc)])
-  | PHostedMetadata => (st, [Adv KHosted RP (p_base pc); Adv KWsdl RP (p_base pc)])
-  | PSubscribe n e => (st ++ [mkpsub n e], [Adv KSubMgr RP (p_base pc)])
-  | PRequest => (st, [])
+  | PProbe _ => (st, [Adv KProbeXaddr RP (p_xaddr pc)])
+  | PGetMetadata _ => (st, [Adv KHosted RP (p_base pc)])
+  | PHostedMetadata _ =>      (* the wsdl location is looked up by the Host header among base_urls, default base_urls[0] *)
+      (st, [Adv KHosted RP (p_base pc); Adv KWsdl RP (p_base pc)])
+  | PSubscribe _ n e =>       (* manager address = base_urls[0] scheme + netloc + consumed path, never wsa:To *)
+      (st ++ [mkpsub n e], [Adv KSubMgr RP (p_base pc)])
+  | PRequest _ => (st, [])
   | PNotify k stls =>
       match nth_error st k with
       | Some s => (st, contact RP (p_client_ctx pc) (a_host (notify_to s)) stls)   (* scheme of NotifyTo is ignored *)
@@ -342,7 +357,7 @@ Definition requires_peer_cert (c : sslctx) : Prop := verify c = CertRequired /\ 
 (* ------------------------------------------------------------------ correspondence: codes and scenario runner *)
 Definition zb (b : bool) : Z := if b then 1 else 0.
 Definition code_scheme (s : scheme) : Z := match s with Http => 0 | Https => 1 end.
-Definition code_host (h : hostk) : Z := match h with HIp => 0 | HAlt => 1 end.
+Definition code_host (h : hostk) : Z := match h with HIp => 0 | HAlt => 1 | HOther => 2 end.
 Definition code_role (r : role) : Z := match r with RP => 0 | RC => 1 end.
 Definition code_ctx (c : option ctxid) : Z :=
   match c with None => 0 | Some PClient => 1 | Some PServer => 2 | Some CClient => 3 | Some CServer => 4 end.
@@ -410,16 +425,16 @@ Definition op_step (c : scase) (s : sys) (ptls : bool) (o : sop) : sys * list ev
   let through := hs_ok (handshake (use_ssl (isc cs)) ptls) in
   let sinkaddr := mkaddr (match sink cs with Some sc => sc | None => Http end) (c_host cc) in
   match o with
-  | OProbe => both pc fx cc s (if through then [PProbe] else []) [CProbe (x_given c) ptls]
-  | OGetMdib => both pc fx cc s (if through then [PRequest] else []) [CRequest (p_base pc) ptls]
-  | OOperate => both pc fx cc s (if through then [PRequest; PNotify 0 ctls] else []) [CRequest (p_base pc) ptls]
+  | OProbe => both pc fx cc s (if through then [PProbe (lib_pf (x_given c))] else []) [CProbe (x_given c) ptls]
+  | OGetMdib => both pc fx cc s (if through then [PRequest (lib_pf (p_base pc))] else []) [CRequest (p_base pc) ptls]
+  | OOperate => both pc fx cc s (if through then [PRequest (lib_pf (p_base pc)); PNotify 0 ctls] else []) [CRequest (p_base pc) ptls]
   | ONotify => both pc fx cc s [PNotify 0 ctls] []
   | ORenew | OGetStatus | OUnsubscribe =>
-      both pc fx cc s (if through then [PRequest] else []) [CRequest (p_base pc) ptls]
+      both pc fx cc s (if through then [PRequest (lib_pf (p_base pc))] else []) [CRequest (p_base pc) ptls]
   | OResubscribe =>
-      both pc fx cc s (if through then [PSubscribe sinkaddr (Some sinkaddr)] else []) [CSubscribe (p_base pc) ptls]
+      both pc fx cc s (if through then [PSubscribe (lib_pf (p_base pc)) sinkaddr (Some sinkaddr)] else []) [CSubscribe (p_base pc) ptls]
   | OStop =>       (* stop_all(unsubscribe=True) *)
-      both pc fx cc s (if through then [PRequest] else []) [CRequest (p_base pc) ptls; CStop]
+      both pc fx cc s (if through then [PRequest (lib_pf (p_base pc))] else []) [CRequest (p_base pc) ptls; CStop]
   | OStart | ORestart | OPeerFlip => (s, [])
   end.
 
@@ -435,7 +450,7 @@ Definition start_step (c : scase) (again : bool) (s : sys) (ptls : bool) : sys *
   let '(cs1, ev1, err) := cstep fx cc (snd s) (if again then CRestart (x_given c) ptls hosted
                                                else CStart (x_given c) ptls hosted) in
   let connected := match err with Some ESsl | Some ENotConnected => false | _ => true end in
-  let p1 := if connected then pfold pc [PGetMetadata; PHostedMetadata] (fst s, []) else (fst s, []) in
+  let p1 := if connected then pfold pc [PGetMetadata (lib_pf (x_given c)); PHostedMetadata (lib_pf (p_base pc))] (fst s, []) else (fst s, []) in
   let r2 := if running cs1 then op_step c (fst p1, cs1) ptls OResubscribe else ((fst p1, cs1), []) in
   (fst r2, ev1 ++ snd p1 ++ snd r2, start_code err).
 
@@ -510,9 +525,33 @@ Definition run_ctx (p : cafile * bool) : list Z :=
   end.
 Definition run_defaults (_ : unit) : list Z := 0 :: code_sslctx (new_ctx true) ++ code_sslctx (new_ctx false).
 
+(* a foreign (hand-built) peer talks to the provider: every answered request with its peer-chosen fields, then a
+   report and, unless unsubscribed, SubscriptionEnd for the peer's sink *)
+Record fcase := mkfcase { f_pc : pconf; f_sink_tls : bool;
+                          f_get : option peerf; f_hosted : option peerf; f_probe : option peerf;
+                          f_sub : option (peerf * addr * option addr);
+                          f_later : list peerf;          (* GetStatus / Renew / Unsubscribe that were answered *)
+                          f_end : bool }.                (* the subscription is alive when the provider stops *)
+
+Definition opt_in {A} (f : A -> pin) (o : option A) : list pin := match o with Some x => [f x] | None => [] end.
+
+Definition foreign_inputs (c : fcase) : list pin :=
+  [PStart; PPublish] ++ opt_in PGetMetadata (f_get c) ++ opt_in PHostedMetadata (f_hosted c)
+  ++ opt_in PProbe (f_probe c)
+  ++ match f_sub c with
+     | Some (f, n, e) => [PSubscribe f n e] ++ map PRequest (f_later c) ++ [PNotify 0 (f_sink_tls c)]
+                         ++ (if f_end c then [PEnd 0 (f_sink_tls c)] else [])
+     | None => []
+     end.
+
+Definition run_foreign (c : fcase) : list Z * list Z :=
+  let evs := prun (f_pc c) [] (foreign_inputs c) in
+  ([zb (p_listen_tls (f_pc c)); zb (forallb (secure_b RP) evs)], map code_event evs).
+
 (* one entry point for all correspondence streams (a single Coq evaluation per check run) *)
 Inductive anycase :=
 | AWorld (c : scase)
+| AForeign (c : fcase)
 | ADefaults
 | ACtx (ca : cafile) (cyphers : bool)
 | AClient (ctx : option ctxid).
@@ -520,6 +559,7 @@ Inductive anycase :=
 Definition run_any (a : anycase) : list Z * list Z :=
   match a with
   | AWorld c => run_case c
+  | AForeign c => run_foreign c
   | ADefaults => (run_defaults tt, [])
   | ACtx ca cy => (run_ctx (ca, cy), [])
   | AClient c => ([code_event (mk_http_connection RP c)], [])
